@@ -528,6 +528,21 @@ impl<'a> Sim<'a> {
     }
 }
 
+/// Verification hooks (`--cfg turmoil_verif`): read-only views used by
+/// external runtime monitors. They never change simulation behaviour.
+#[cfg(turmoil_verif)]
+impl Sim<'_> {
+    /// `(udp binds, tcp listener binds, tcp stream entries, multicast
+    /// memberships)` currently held by the host at `addr`.
+    pub fn verif_host_counts(&self, addr: impl ToIpAddr) -> (usize, usize, usize, usize) {
+        let mut world = self.world.borrow_mut();
+        let addr = world.lookup(addr);
+        let (udp, tcp, streams) = world.hosts.get(&addr).expect("missing host").verif_counts();
+        let memberships = world.multicast_groups.verif_memberships_of(addr);
+        (udp, tcp, streams, memberships)
+    }
+}
+
 #[cfg(test)]
 mod test {
     use rand::Rng;
